@@ -499,7 +499,8 @@ func genAtom(t *rapid.T) string {
 		return "// " + rapid.StringMatching(`[a-z ("\[]{0,8}`).Draw(t, "lc") + "\n"
 	case 13:
 		// bodies with stars and slashes, closers with a run of stars: "**/" must close the comment
-		return "/*" + rapid.StringMatching("[a-z (\"\\n\\[*/]{0,8}").Draw(t, "bc") + rapid.SampledFrom([]string{" */", "*/", "**/", "***/", " * */"}).Draw(t, "bcend")
+		// (the body never holds the closing pair itself: text after an early close would be live code of no particular shape)
+		return "/*" + strings.ReplaceAll(rapid.StringMatching("[a-z (\"\\n\\[*/]{0,8}").Draw(t, "bc"), "*/", "* /") + rapid.SampledFrom([]string{" */", "*/", "**/", "***/", " * */"}).Draw(t, "bcend")
 	case 14:
 		return "^(a ~b ~@c)"
 	case 15:
